@@ -21,6 +21,7 @@ import (
 	admissionv1 "k8s.io/api/admission/v1"
 	admregv1 "k8s.io/api/admissionregistration/v1"
 	kerrors "k8s.io/apimachinery/pkg/api/errors"
+	corev1 "k8s.io/api/core/v1"
 	metav1 "k8s.io/apimachinery/pkg/apis/meta/v1"
 	"k8s.io/apimachinery/pkg/apis/meta/v1/unstructured"
 	"k8s.io/apimachinery/pkg/labels"
@@ -171,6 +172,31 @@ func res(gk schema.GroupKind, version, name string) *unstructured.Unstructured {
 	return u
 }
 
+// ownerRef is a controller reference to one of the two owner objects the
+// world holds (they exist, so the garbage collector leaves their dependents).
+func ownerRef(name string) metav1.OwnerReference {
+	t := true
+	return metav1.OwnerReference{APIVersion: "v1", Kind: "ConfigMap", Name: name, UID: types.UID(name + "-uid"), Controller: &t}
+}
+
+// seedOwners adds the owner objects and, for selectors that demand the same
+// controller, gives the used resource r that controller and adds a decoy: a
+// resource with the same labels that sorts before r and belongs to another
+// controller. Only r may be selected.
+func seedOwners(s *simkube.Store, used *unstructured.Unstructured, f usageForm) {
+	for _, n := range []string{"owner-1", "owner-2"} {
+		s.Seed(&corev1.ConfigMap{TypeMeta: metav1.TypeMeta{APIVersion: "v1", Kind: "ConfigMap"}, ObjectMeta: metav1.ObjectMeta{Namespace: "default", Name: n, UID: types.UID(n + "-uid")}})
+	}
+	if !f.matchCtrl {
+		return
+	}
+	used.SetOwnerReferences([]metav1.OwnerReference{ownerRef("owner-1")})
+	decoy := res(usedGK, "v1", "a-decoy")
+	decoy.SetLabels(map[string]string{"role": "db"})
+	decoy.SetOwnerReferences([]metav1.OwnerReference{ownerRef("owner-2")})
+	s.Seed(decoy)
+}
+
 type usageForm struct {
 	selector   bool
 	matchCtrl  bool
@@ -212,6 +238,10 @@ func mkUsage(name string, f usageForm) *v1beta1.Usage {
 	}
 	if f.composed {
 		u.SetLabels(map[string]string{"crossplane.io/composite": "some-xr"})
+	}
+	if f.matchCtrl {
+		// The Usage and the resource it selects are composed by the same XR.
+		u.SetOwnerReferences([]metav1.OwnerReference{ownerRef("owner-1")})
 	}
 	return u
 }
@@ -306,6 +336,7 @@ func body(r *explore.Run, rep *report.R, sc string, depth int, form usageForm, p
 
 	used := res(usedGK, "v1", "r")
 	used.SetLabels(map[string]string{"role": "db"})
+	seedOwners(s, used, form)
 	s.Seed(used)
 	app := res(usingGK, "v1", "app")
 	app.SetLabels(map[string]string{"role": "app"})
@@ -429,6 +460,15 @@ func body(r *explore.Run, rep *report.R, sc string, depth int, form usageForm, p
 		}
 		trail = append(trail, desc)
 		r.Logf("step %d: %s", step, desc)
+		// S1: a selector names a resource it matches (labels and, when asked
+		// for, the same controller): here that is r and never the decoy.
+		if form.selector && u1Completed {
+			if u := s.Peek(usageKey("u1")); u != nil {
+				if n, _, _ := unstructured.NestedString(u.Object, "spec", "of", "resourceRef", "name"); n != "" && n != "r" {
+					r.Failf("S1/selector-resolved-to-non-matching-resource", "Usage u1 selects resources labelled role=db (same controller required: %v) but was resolved to %q", form.matchCtrl, n)
+				}
+			}
+		}
 		// M5: a Usage by a resource is owned by it once ready.
 		if form.by {
 			if u := s.Peek(usageKey("u1")); u != nil {
